@@ -329,7 +329,7 @@ def run_combo(names, bound, res, only_schedule=None, occurrence_cap=None):
     if any(a.trace != ex.trace for a in again):
       raise sched.HarnessError(
           f'non-deterministic replay of schedule {order} {switches}')
-    if v2[0] != verdict or v2[1] != verdict:
+    if any(v is None or v[0] != verdict[0] for v in v2):
       raise sched.HarnessError(f'verdict not reproducible: {verdict} {v2}')
     where = [ex.label(s) for s in sorted(switches) if s >= 0]
     res.violation(
